@@ -11,7 +11,7 @@ from vfacts import strip, walk, method_name, must_pass_through, root_path, is_no
 from .prov import var_table, local_sources
 
 RULE = 'NONEMPTY'
-FLOOR = 10
+FLOOR = 6
 UNIQ = {'uniqueCluster', 'uniqueTuplePtrSet', 'uniqueRStateSet'}
 
 
